@@ -65,3 +65,11 @@ func (c *Client) VerifTryLock() bool {
 	}
 	return false
 }
+
+// VerifSetNextID makes n the next request ID c will issue. The harness uses it
+// to reach the range an ID counter gets to only after billions of requests.
+func (c *Client) VerifSetNextID(n int64) {
+	c.mu.Lock()
+	defer c.mu.Unlock()
+	c.nextID = n
+}
